@@ -14,13 +14,30 @@ def last_pow2(t):
     return 1 << (int(t).bit_length() - 1)
 
 
+_CACHE = {}
+
+
+def reset_cache():
+    """The ledger lists of one run are append-only and live for the whole run, so (id, len) identifies
+    their content; cleared at the start of every run."""
+    _CACHE.clear()
+
+
 def mean(led):
-    return math.fsum(float(x) for x in led) / len(led)
+    key = (id(led), len(led), 0)
+    v = _CACHE.get(key)
+    if v is None:
+        v = _CACHE[key] = math.fsum(float(x) for x in led) / len(led)
+    return v
 
 
 def variance(led, floor=1e-3):
-    m = mean(led)
-    return max(math.fsum((float(x) - m) ** 2 for x in led) / len(led), floor)
+    key = (id(led), len(led), 1)
+    v = _CACHE.get(key)
+    if v is None:
+        m = mean(led)
+        v = _CACHE[key] = max(math.fsum((float(x) - m) ** 2 for x in led) / len(led), floor)
+    return v
 
 
 def c1(nu, rho):
